@@ -41,9 +41,13 @@ pub struct Scenario {
     /// options through a configuration file (JET1090_CONFIG) instead of the command line; the only way to give an
     /// *empty* filter list
     pub via_config: bool,
+    /// addresses whose stored history (`/track?icao24=`) is fetched once everything has been processed
+    pub track: Vec<u32>,
 }
 
 pub struct Outcome {
+    /// `/track?icao24=` per requested address (null when the aircraft is unknown)
+    pub tracks: std::collections::BTreeMap<u32, Value>,
     /// stdout lines
     pub lines: Vec<String>,
     /// lines of the --output file (when requested)
@@ -102,9 +106,13 @@ fn free_port() -> Option<u16> {
 }
 
 fn http_get_all(port: u16) -> Option<Value> {
+    http_get(port, "/all")
+}
+
+fn http_get(port: u16, path: &str) -> Option<Value> {
     let mut s = TcpStream::connect_timeout(&format!("127.0.0.1:{port}").parse().ok()?, Duration::from_millis(500)).ok()?;
     s.set_read_timeout(Some(Duration::from_secs(3))).ok()?;
-    s.write_all(b"GET /all HTTP/1.0\r\nHost: localhost\r\n\r\n").ok()?;
+    s.write_all(format!("GET {path} HTTP/1.0\r\nHost: localhost\r\n\r\n").as_bytes()).ok()?;
     let mut buf = vec![];
     s.read_to_end(&mut buf).ok()?;
     let text = String::from_utf8_lossy(&buf);
@@ -295,6 +303,15 @@ pub fn play(env: &Env, sc: &Scenario, tag: &str) -> Result<Outcome, Fail> {
     if !moved {
         return Err(skip("the markers stopped coming through"));
     }
+    let mut tracks = std::collections::BTreeMap::new();
+    for a in &sc.track {
+        match http_get(web, &format!("/track?icao24={a:06x}")) {
+            Some(v) => {
+                tracks.insert(*a, v);
+            }
+            None => return Err(skip("the /track endpoint did not answer")),
+        }
+    }
     // the pipe reader gets a moment, then the process is stopped and everything it printed is collected
     std::thread::sleep(Duration::from_millis(30));
     drop(conns);
@@ -304,7 +321,7 @@ pub fn play(env: &Env, sc: &Scenario, tag: &str) -> Result<Outcome, Fail> {
     let file_lines = if sc.with_file { Some(std::fs::read_to_string(&out_file).unwrap_or_default().lines().map(|s| s.to_string()).collect()) } else { None };
     let _ = std::fs::remove_dir_all(&dir);
     let lines = lines.lock().unwrap().clone();
-    Ok(Outcome { lines, file_lines, table })
+    Ok(Outcome { lines, file_lines, table, tracks })
 }
 
 /// play a scenario; a process that dies is given the scenario once more, a second death is reported as `Died`
@@ -319,7 +336,7 @@ pub fn scenario_json(sc: &Scenario) -> Value {
     serde_json::json!({
         "references": sc.references.iter().map(|r| r.map(|(a, o)| vec![a, o])).collect::<Vec<_>>(),
         "sends": sc.sends.iter().map(|s| serde_json::json!([s.source, hex::encode(&s.frame), s.pause_ms, s.cut])).collect::<Vec<_>>(),
-        "df_filter": sc.df_filter, "aircraft_filter": sc.aircraft_filter, "dedup_ms": sc.dedup_ms, "update_position": sc.update_position, "with_file": sc.with_file, "via_config": sc.via_config,
+        "df_filter": sc.df_filter, "aircraft_filter": sc.aircraft_filter, "dedup_ms": sc.dedup_ms, "update_position": sc.update_position, "with_file": sc.with_file, "via_config": sc.via_config, "track": sc.track,
     })
 }
 
@@ -333,5 +350,6 @@ pub fn scenario_of(v: &Value) -> Scenario {
         update_position: v["update_position"].as_bool().unwrap_or(false),
         with_file: v["with_file"].as_bool().unwrap_or(false),
         via_config: v["via_config"].as_bool().unwrap_or(false),
+        track: v["track"].as_array().map(|a| a.iter().map(|x| x.as_u64().unwrap_or(0) as u32).collect()).unwrap_or_default(),
     }
 }
